@@ -12,10 +12,10 @@ Local Open Scope N_scope.
 Theorem source_optional_members_safe : forall z v a x y,
   same_cells (run_member z gen_table MReset a (wf1 x)) (m_reset (wf1 x)) /\
   same_cells (run_member z gen_table MDcsin a (wf1 x)) (m_default_construct_storage_if_needed (wf1 x)) /\
-  same_cells (run_member z gen_table MEmplace (ret v) (wf1 x)) (m_emplace v (wf1 x)) /\
-  same_cells (run_member z gen_table MAssignValue (ret v) (wf1 x)) (m_assign_value v (wf1 x)) /\
-  same_cells (run_member z gen_table MCtorValue (ret v) (wf1 None)) (m_ctor_value v (wf1 None)) /\
-  same_cells (run_member z gen_table MMakeOptional (ret v) (wf1 None)) (m_emplace v (wf1 None)) /\
+  same_cells (run_member z gen_table MEmplace (vval v) (wf1 x)) (m_emplace v (wf1 x)) /\
+  same_cells (run_member z gen_table MAssignValue (vval v) (wf1 x)) (m_assign_value v (wf1 x)) /\
+  same_cells (run_member z gen_table MCtorValue (vval v) (wf1 None)) (m_ctor_value v (wf1 None)) /\
+  same_cells (run_member z gen_table MMakeOptional (vval v) (wf1 None)) (m_emplace v (wf1 None)) /\
   same_cells (bindO (run_member z gen_table MDtor a) (fun _ => lift (release This)) (wf1 x)) (m_dtor (wf1 x)) /\
   same_cells (run_member z gen_table MCtorCopy a (wf2 None y)) (m_ctor_copy (fixed_cfg z) (wf2 None y)) /\
   same_cells (run_member z gen_table MCtorConvCopy a (wf2 None y)) (m_ctor_copy (fixed_cfg z) (wf2 None y)) /\
@@ -103,3 +103,17 @@ Theorem source_any_noeq_payload_compares_false :
   (forall h o, h_tag h = 4 -> is_same h o = false).
 Proof. split; [exact FactsSem.sem_traits | exact MicroProofs.link_noeq]. Qed.
 Print Assumptions source_any_noeq_payload_compares_false.
+
+(* value categories of the argument of a value operation: an LVALUE argument is never modified
+   (value assignment copies whatever the category; emplace / make_optional move only from an rvalue) *)
+Theorem source_value_assign_never_moves : forall z rv x w,
+  same_cells (run_member z gen_table MAssignValue (vderef z rv) (wf2 x (Some w)))
+             (m_assign_from (read_value z Other false) (wf2 x (Some w))).
+Proof. exact FactsSem.sem_assign_deref. Qed.
+Print Assumptions source_value_assign_never_moves.
+
+Theorem source_emplace_forwards : forall z rv x w,
+  same_cells (run_member z gen_table MEmplace (vderef z rv) (wf2 x (Some w)))
+             (m_emplace_from (read_value z Other rv) (wf2 x (Some w))).
+Proof. exact FactsSem.sem_emplace_deref. Qed.
+Print Assumptions source_emplace_forwards.
